@@ -40,7 +40,9 @@ pub enum CfiOp {
 }
 
 /// Encode one instruction; returns the offset (within `w`) of the expression bytes if any.
-pub fn encode_cfi(op: &CfiOp, address_size: u8, w: &mut W) -> Option<usize> {
+/// `ptr_enc`: the pointer encoding DW_CFA_set_loc operands are written in (the 'R' encoding of an augmented CIE,
+/// DW_EH_PE_absptr otherwise)
+pub fn encode_cfi(op: &CfiOp, address_size: u8, ptr_enc: u8, w: &mut W) -> Option<usize> {
     let mut expr_at = None;
     match op {
         CfiOp::AdvanceLoc(d) => {
@@ -56,7 +58,8 @@ pub fn encode_cfi(op: &CfiOp, address_size: u8, w: &mut W) -> Option<usize> {
             w.u8(0x04).u32(*d);
         }
         CfiOp::SetLoc(a) => {
-            w.u8(0x01).uint(*a, address_size);
+            w.u8(0x01);
+            write_pe(w, ptr_enc, *a, address_size);
         }
         CfiOp::DefCfa(r, o) => {
             w.u8(0x0c).uleb(*r).uleb(*o);
@@ -319,7 +322,9 @@ pub fn build_frame(eh: bool, big: bool, cies: &[CieSpec], fdes: &[FdeSpec], entr
                     }
                     rec.instr_offset = w.len();
                     for op in &c.instrs {
-                        let at = encode_cfi(op, c.address_size, &mut w);
+                        // (a DW_CFA_set_loc among a CIE's initial instructions - no location to set there - is read by
+                        // gimli as a plain address; the FDE pointer encoding governs FDE instructions)
+                        let at = encode_cfi(op, c.address_size, 0, &mut w);
                         rec.expr_offsets.push(at);
                     }
                     for _ in 0..c.pad {
@@ -374,7 +379,7 @@ pub fn build_frame(eh: bool, big: bool, cies: &[CieSpec], fdes: &[FdeSpec], entr
                     }
                     rec.instr_offset = w.len();
                     for op in &f.instrs {
-                        let at = encode_cfi(op, c.address_size, &mut w);
+                        let at = encode_cfi(op, c.address_size, if c.aug.contains(&b'R') { c.fde_enc } else { 0 }, &mut w);
                         rec.expr_offsets.push(at);
                     }
                     for _ in 0..f.pad {
